@@ -53,9 +53,7 @@ pub fn gen(seed: u64, tier: Tier) -> ScenarioSpec {
             spec.archive_edits.push(ArchiveEdit { before: rng.below(8) as u8, name, size: if rng.chance(1, 4) { 0 } else { rng.below(5000) as u32 }, pseed: rng.next_u64() });
         }
     }
-    if rng.chance(1, 4) {
-        spec.knobs.insert("prelude".into(), 3);
-    }
+    spec.knobs.insert("prelude".into(), gen_prelude(&mut rng, &[3, 5], 3));
     if rng.chance(1, 3) {
         spec.archive_version = Some(match rng.below(8) {
             0 => [1, 255, 255],
